@@ -99,7 +99,7 @@ ZMax(a, b) == IF ZLt(a, b) THEN b ELSE a
 ZMin(a, b) == IF ZLt(a, b) THEN a ELSE b
 RECURSIVE ZSumFrom(_, _)
 ZSumFrom(s, i) == IF i > Len(s) THEN ZZero ELSE ZAdd(s[i], ZSumFrom(s, i+1))
-ZSum(s) == ZSumFrom(s, 1)
+ZSum(s) == FoldLeft(LAMBDA acc, x : ZAdd(acc, x), ZZero, s)
 ZOfInts(s) == [k \in 1..Len(s) |-> ZFromInt(s[k])]
 ZMulInt(a, k) == ZMul(a, ZFromInt(k))
 (* exact comparison of rationals a/b ? c/d with b, d > 0 *)
@@ -147,8 +147,7 @@ IInsert(sorted, x) == IF sorted = <<>> THEN <<x>>
 RECURSIVE ISortFrom(_, _)
 ISortFrom(s, acc) == IF s = <<>> THEN acc ELSE ISortFrom(Tail(s), IInsert(acc, Head(s)))
 ISort(s) == ISortFrom(s, <<>>)
-RECURSIVE ISum(_)
-ISum(s) == IF s = <<>> THEN 0 ELSE Head(s) + ISum(Tail(s))
+ISum(s) == FoldLeft(LAMBDA acc, x : acc + x, 0, s)      \* iterative (no deep recursion on long sequences)
 IAbs(x) == IF x < 0 THEN -x ELSE x
 IMin(s) == LET t == ISort(s) IN t[1]
 IMax(s) == LET t == ISort(s) IN t[Len(t)]
